@@ -276,7 +276,8 @@ class Gen:
         fn, args, rty = self.gen_def(env)
         var = self.fresh('t')
         st['tasks'] += 1
-        return {'op': 'def', 'var': var, 'fn': fn, 'args': args, 'k': self.block(env + [(var, rty, None)], st, True)}
+        return {'op': 'mark', 'n': self.fresh_mark(), 'kind': 'plain',
+                'k': {'op': 'def', 'var': var, 'fn': fn, 'args': args, 'k': self.block(env + [(var, rty, None)], st, True)}}
 
     def end(self, env, in_body):
         rng = self.rng
@@ -525,6 +526,32 @@ def all_descs(prog):
     return res
 
 
+def builder_marks(prog):
+    """{marker at the top of a builder: descriptor of the compound}, for every compound in every branch"""
+    out = {}
+
+    def walk(node, env):
+        op = node['op']
+        if op == 'ret':
+            return
+        if op == 'def':
+            d = ('T', node['fn'], tuple(arg_desc(a, env) for a in node['args']))
+            walk(node['k'], dict(env, **{node['var']: d}))
+        elif op == 'compound':
+            d = ('T', node['name'], tuple(env[p] for p in node['params']))
+            if node['body']['op'] == 'mark':
+                out[node['body']['n']] = d
+            walk(node['body'], dict((p, env[p]) for p in node['params']))
+            walk(node['k'], dict(env, **{node['var']: d}))
+        elif op == 'bvalue':
+            for x in sorted(node['branches']):
+                walk(node['branches'][x], env)
+        else:
+            walk(node['k'], env)
+    walk(prog, {})
+    return out
+
+
 class Interner:
     def __init__(self, prog):
         self.hasher = Hasher()
@@ -559,11 +586,11 @@ class Interner:
 def coq_val(v):
     if isinstance(v, tuple):
         if len(v) == 2 and all(isinstance(x, int) and not isinstance(x, bool) for x in v):
-            return '(P2 %d %d)' % v
+            return '(P2 (%d) (%d))' % v
         return '(VTup [%s])' % '; '.join(coq_val(x) for x in v)
     if isinstance(v, bool) or not isinstance(v, int):
-        raise HarnessError('value outside the modelled universe: %r' % (v,))
-    return '(I %d)' % v
+        return '(I (-99))'             # outside the modelled universe (only a broken jug puts such a value anywhere)
+    return '(I (%d))' % v
 
 
 def coq_arg(a, env, it):
